@@ -353,3 +353,59 @@ func Hex[A any](a A) string {
 	}
 	return string(out)
 }
+
+// Shared uses ONE lens value from two goroutines at the same time, each on its own structure.  A lens is an
+// immutable value; whatever one goroutine does through it must not leak into the other's structure.
+func Shared[S, A any](h *H, what string, l optics.Lens[S, A], addr func(*S) *A, loose func(*S) []Loose) {
+	if h.Failed() {
+		return
+	}
+	at := reflect.TypeOf((*A)(nil)).Elem()
+	type side struct {
+		ar   *Arena[S]
+		vals []A
+	}
+	var sides [2]side
+	for i := range sides {
+		sides[i].ar = NewArena[S](h.RT)
+		for k := 0; k < 4; k++ {
+			sides[i].vals = append(sides[i].vals, Draw[A](h.RT))
+		}
+	}
+	errs := make(chan string, 2)
+	start := make(chan struct{})
+	for i := range sides {
+		go func(sd side) {
+			defer func() {
+				if r := recover(); r != nil {
+					errs <- fmt.Sprintf("panic: %v", r)
+				}
+			}()
+			<-start
+			p := sd.ar.P()
+			focus := addr(p)
+			ls := loose(p)
+			before := sd.ar.Snapshot()
+			for round := 0; round < 300; round++ {
+				v := sd.vals[round%len(sd.vals)]
+				l.Put(p, v)
+				if d := sd.ar.DiffLoose(before, sd.ar.Snapshot(), ls, Patch{Addr: unsafe.Pointer(focus), Src: unsafe.Pointer(&v), Type: at}); d != "" {
+					errs <- fmt.Sprintf("round %d: %s", round, d)
+					return
+				}
+				got := l.Get(p)
+				if !sameBytes(at, unsafe.Pointer(&got), unsafe.Pointer(&v)) {
+					errs <- fmt.Sprintf("round %d: Get returned %s after Put(%s)", round, show(got), show(v))
+					return
+				}
+			}
+			errs <- ""
+		}(sides[i])
+	}
+	close(start)
+	for range sides {
+		if e := <-errs; e != "" {
+			h.Failf("%s: one lens value used by two goroutines on two different structures: %s", what, e)
+		}
+	}
+}
